@@ -424,10 +424,18 @@ def runHistory (s : HState) (ts : List TurnIn) : HState := ts.foldl runTurn s
 /-- Number of committed (kill switch off) turns. -/
 def committedTurns (ts : List TurnIn) : Nat := (ts.filter (·.enabled)).length
 
+/-- Cache clause of one committed turn, on the observed cache and the count in its `apply.jsonl`
+record: the bust mode / namespace list in force *this* turn decide (no latching). -/
+def turnInvalidateB (s : HState) (t : TurnIn) (s' : HState) : Bool :=
+  match s'.applyRecs.getLast? with
+  | some r => specInvalidate (toIn s t) { (default : Out) with cm := s'.cm, invalidated := r.invalidated }
+  | none => false
+
 /-- Monitor for one observed turn of the implementation: `s` before, `s'` after. -/
 def turnSpec (s : HState) (t : TurnIn) (s' : HState) : Bool :=
   if t.enabled then
-    s'.ver == .num (bump s.ver)
+    turnInvalidateB s t s'
+    && s'.ver == .num (bump s.ver)
     && s'.t4recs == s.t4recs + 1
     && s'.applyRecs.length == s.applyRecs.length + 1
     && s'.calls == s.calls ++ handoff (toIn s t)
